@@ -412,6 +412,15 @@ func (g *G) NameAddrList(maxn int, star bool) string {
 	if g.R.Chance(1, 2) {
 		n = g.R.Range(1, maxn)
 	}
+	if g.R.Chance(1, 60) {
+		// a very long list (more values than any small constant)
+		n = g.R.PickInt(17, 33, 65, 129, 130, 200, 257, 300)
+		parts := make([]string, n)
+		for i := range parts {
+			parts[i] = g.R.Pick([]string{"<sip:a@b>", "sip:c@d", "<sip:e>;q=0.5", "<sip:f@g>;expires=" + g.SmallNum(9999), "X <sip:h>"})
+		}
+		return strings.Join(parts, g.R.Pick([]string{",", ", ", ",\r\n "}))
+	}
 	parts := make([]string, n)
 	for i := range parts {
 		parts[i] = g.NameAddr(true)
